@@ -4,6 +4,7 @@ import TTModel.C04_Subst
 import TTModel.C05_SiteModel
 import TTModel.C06_Heights
 import TTProofs.Lemmas.Sums
+import TTProofs.Lemmas.C12_Pruning
 /-!
 # C12 — gradients are the derivatives of the reported densities (property theorems)
 
@@ -841,5 +842,54 @@ theorem hasDerivAt_ratioLogDet (n : Nat) (b x : Nat → ℝ) (fwd : List (Nat ×
     (fun t => ratioLogDet n b fwd det (C06.upd x i t)) hdef
     (fun t => by rw [ratioEnv_update, ratioLogDet_eq_eval])
   simpa [ratioEnv_x] using h
+
+
+/-! ## pruning recursion: multi-affine in the edge matrices -/
+
+/-- **pruning_multiaffine**: on a tree with pairwise distinct branches the site likelihood computed by
+the pruning recursion is affine in each single edge matrix, over any commutative semiring. -/
+theorem pruning_multiaffine {R : Type} [CommSemiring R] {S : Nat} (π : Fin S → R) (tip : Nat → Fin S → R)
+    (mat : Nat → Fin S → Fin S → R) (e : Nat) (A B : Fin S → Fin S → R) (a b : R) (hab : a + b = 1)
+    (t : C01.ITree) (hnd : (edges t).Nodup) :
+    siteLikT π tip (Function.update mat e (fun i j => a * A i j + b * B i j)) t =
+      a * siteLikT π tip (Function.update mat e A) t + b * siteLikT π tip (Function.update mat e B) t :=
+  siteLikT_affine π tip mat e A B a b hab t hnd
+
+/-- **Derivative of the site likelihood in a branch length**: the pruning value with that branch's
+matrix replaced by `dP/dt`, every other matrix unchanged. -/
+theorem hasDerivAt_pruning_branch {S : Nat} (π : Fin S → ℝ) (tip : Nat → Fin S → ℝ)
+    (mat : Nat → Fin S → Fin S → ℝ) (e : Nat) (P : ℝ → Fin S → Fin S → ℝ) (P' : Fin S → Fin S → ℝ) (τ₀ : ℝ)
+    (hP : ∀ i j, HasDerivAt (fun τ => P τ i j) (P' i j) τ₀) (t : C01.ITree) (hnd : (edges t).Nodup)
+    (he : e ∈ edges t) :
+    HasDerivAt (fun τ => siteLikT π tip (Function.update mat e (P τ)) t)
+      (siteLikT π tip (Function.update mat e P') t) τ₀ :=
+  hasDerivAt_siteLikT_branch π tip mat e P P' τ₀ hP t hnd he
+
+/-- JC69 on the branch above tip 0 of the tree `((0,1)3,2)4`: the derivative of the site likelihood in
+that branch length is the pruning value with `P` replaced by the forward-mode tangent matrix of JC69 -/
+example (π : Fin 4 → ℝ) (tip : Nat → Fin 4 → ℝ) (mat : Nat → Fin 4 → Fin 4 → ℝ) (τ₀ : ℝ) :
+    HasDerivAt
+      (fun τ => siteLikT π tip (Function.update mat 0 (C04.jc69P τ))
+        (.node 4 (.node 3 (.leaf 0) (.leaf 1)) (.leaf 2)))
+      (siteLikT π tip (Function.update mat 0 fun i j =>
+          partialD (if i = j then jcDiagE (var 0) else jcOffE (var 0)) (envOf [τ₀]) 0)
+        (.node 4 (.node 3 (.leaf 0) (.leaf 1)) (.leaf 2))) τ₀ :=
+  hasDerivAt_pruning_branch π tip mat 0 C04.jc69P _ τ₀ (fun i j => hasDerivAt_jc69P τ₀ i j) _
+    (by decide) (by decide)
+
+/-! ## further instances of the hypotheses -/
+
+/-- constant coalescent in θ: 3 taxa (0, 0, 1), coalescences at 2 and 4, θ = 3 -/
+example : HasDerivAt (fun t => C08.constantLogProb t ([0, 0, 1, 2, 4] : List ℝ))
+    (partialD (constantE (var 0) (vars 1 (C08.sortEvents (C08.mkEvents ([0, 0, 1, 2, 4] : List ℝ) [])).length)
+        (C08.marks (C08.sortEvents (C08.mkEvents ([0, 0, 1, 2, 4] : List ℝ) []))) (C08.taxaCount ([0, 0, 1, 2, 4] : List ℝ) - 1))
+      (envOf (3 :: C08.times (C08.sortEvents (C08.mkEvents ([0, 0, 1, 2, 4] : List ℝ) [])))) 0) 3 :=
+  hasDerivAt_constantLogProb_theta _ 3 (by norm_num)
+
+/-- ratio transform on the 3-taxon caterpillar: internal positions 0 (child) and 1 (root),
+`fwd = [(1, 0)]`, any bounds and ratios -/
+example (b x : Nat → ℝ) : HasDerivAt (fun t => C06.ratioFwd 3 b [(1, 0)] (C06.upd x 0 t) 0)
+    (partialD (heightsE [(1, 0)] bV xV 0) (ratioEnv 3 b x) 0) (x 0) := by
+  simpa using hasDerivAt_ratioFwd 3 b x [(1, 0)] 0 0
 
 end TTProps.C12
